@@ -3,6 +3,7 @@
   Reads a corpus file on stdin (format: /verif/vlib/protocol.md), prints one trace per case.
 -/
 import PegtlVerif.Model.Run
+import PegtlVerif.Model.Tree
 import PegtlVerif.Spec.Peg
 import PegtlVerif.Lemmas.WftCheck
 
@@ -137,6 +138,38 @@ structure DState where
   g : Array Node := #[]
   fams : Array (Array ActionSpec) := #[]
   fuel : Nat := 3000
+  sel : List (Nat × Sel) := []     -- parse-tree selector (C12); empty: no tree output
+  treeOn : Bool := false
+
+def parseSel (s : String) : Sel :=
+  if s == "remove" then .removeContent else if s == "fold" then .foldOne else if s == "discard" then .discardEmpty else .store
+
+def selPairs : List String → List (Nat × Sel)
+  | i :: k :: rest => (nat! i, parseSel k) :: selPairs rest
+  | _ => []
+
+/-- dynamic check of the side condition of C12_tree: no selected rule is entered below a rule classified `leaf` -/
+def leafSoundTrace (cls : Nat → Cls) : List Bool → List Ev → Bool
+  | _, [] => true
+  | stk, .enter i _ _ _ :: es =>
+    let under := stk.any id
+    match cls i with
+    | .sel _ => !under && leafSoundTrace cls (false :: stk) es
+    | .leaf => leafSoundTrace cls (true :: stk) es
+    | .branch => leafSoundTrace cls (false :: stk) es
+  | stk, .exit _ _ _ :: es => leafSoundTrace cls stk.tail es
+  | stk, _ :: es => leafSoundTrace cls stk es
+
+def showTree (ds : DState) (r : Ret) : List String :=
+  if !ds.treeOn then [] else
+    let selMap : Nat → Option Sel := fun i => (ds.sel.find? (·.1 == i)).map (·.2)
+    let cls := clsOf ds.g selMap
+    let sound := leafSoundTrace cls [] r.raw
+    match buildTree cls (decide (r.res = .ok)) r.raw with
+    | none => ["TREE none", s!"LS {if sound then 1 else 0}"]
+    | some f => [s!"TREE {f.length}"] ++
+        f.map (fun p => s!"T {p.1} {p.2.id} {showCur p.2.b} {if p.2.content then showCur p.2.e else "-"}") ++
+        [s!"LS {if sound then 1 else 0}"]
 
 def setNode (g : Array Node) (i : Nat) (nd : Node) : Array Node :=
   let g := if g.size ≤ i then g ++ Array.replicate (i + 1 - g.size) default else g
@@ -163,7 +196,7 @@ def runCase (ds : DState) (ts : List String) : List String :=
         | .fail => s!"R 0 {showCur (cx.rep r.st.cur)}"
         | .thr e => s!"R 2 {showCur (cx.rep r.st.cur)} {showExc e}"
       [s!"CASE {cid}"] ++ r.raw.map showEv ++ [resLine, s!"O {if r.st.oob then 1 else 0} {r.st.endp} {r.st.depth}"]
-        ++ r.surv.map (fun e => "S " ++ showEv e) ++ ["END"]
+        ++ r.surv.map (fun e => "S " ++ showEv e) ++ showTree ds r ++ ["END"]
   | _ => ["BAD case"]
 
 def showBlame : Spec.Blame → String
@@ -183,7 +216,8 @@ def semCase (ds : DState) (ts : List String) : List String :=
 
 def step (ds : DState) (line : String) : DState × List String :=
   match (line.trimAscii.toString.splitOn " ").filter (· ≠ "") with
-  | ["G", _gid] => ({ ds with g := #[], fams := #[] }, [])
+  | ["G", _gid] => ({ ds with g := #[], fams := #[], sel := [], treeOn := false }, [])
+  | "SEL" :: rest => ({ ds with sel := selPairs rest, treeOn := true }, [])
   | ["FUEL", n] => ({ ds with fuel := nat! n }, [])
   | "N" :: id :: ctl :: k :: b :: v :: t :: s :: w :: rest =>
     match parseKind rest with
